@@ -670,14 +670,15 @@ def unit_audioreader(sess, ctx):
     routing of hop_dur, read(), __getattr__ hiding data/rewind, properties."""
     u = Unit("AudioReader.__init__/read/__getattr__/properties",
              [QU + "AudioReader.__init__", QU + "AudioReader.read", QU + "AudioReader.__getattr__",
-              QU + "AudioReader.rewindable", QU + "AudioReader.block_dur", QU + "Recorder.__init__"])
+              QU + "AudioReader.rewindable", QU + "AudioReader.block_dur", QU + "Recorder.__init__",
+              QU + "AudioReader.hop_size", QU + "AudioReader.hop_dur", QU + "AudioReader.max_read"])
     eng = setup(sess, [QU + "AudioReader.rewindable", QU + "AudioReader.__init__"])
-    ops = ["init", "getattr", "read", "block_dur"]
+    ops = ["init", "getattr", "read", "block_dur", "hop", "max_read"]
 
     def run_(eng):
         v = IV(eng)
         gh = eng.st.ghost
-        op = ops[eng.choose(4, None, "operation")]
+        op = ops[eng.choose(6, None, "operation")]
         if op == "init":
             log = []
 
@@ -760,6 +761,29 @@ def unit_audioreader(sess, ctx):
             eng.prove("C05:AudioReader:block_dur-is-block_size/rate",
                       (res.t * R(v.sr) == R(eng.st.heap[inner.oid]["block_size"])) if isinstance(res, Fl) else False,
                       props=("C05", "C06", "C10"))
+            return None
+        if op == "hop":
+            # hop_size / hop_dur: the framing wrapper's hop when it has one (overlap), else the block
+            has_hop = eng.choose(2, None, "overlapping framing?") == 0
+            hs = Int("hop_size")
+            if has_hop:
+                eng.st.heap[inner.oid].update({"hop_size": hs, "hop_dur": Opq(tag="x")})
+            eng.inline |= {QU + "AudioReader.hop_size", QU + "AudioReader.hop_dur", QU + "AudioReader.block_dur",
+                           QU + "AudioReader.__getattr__"}
+            r1 = eng.getattr(me, "hop_size")
+            r2 = eng.getattr(me, "hop_dur")
+            bs = eng.st.heap[inner.oid]["block_size"]
+            exp = hs if has_hop else bs
+            eng.prove("C10:AudioReader:hop_size-is-the-hop-or-the-block", is_int(r1) and z3.is_true(z3.simplify(I(r1) == exp)), props=P10)
+            eng.prove("C10:AudioReader:hop_dur-is-hop_size/rate", (r2.t * R(v.sr) == R(exp)) if isinstance(r2, Fl) else False, props=P10)
+            return None
+        if op == "max_read":
+            has = eng.choose(2, None, "limited?") == 0
+            mr = Fl(Real("mr"))
+            if has:
+                eng.st.heap[inner.oid]["max_read"] = mr
+            r = eng.run_function(ctx.fi(QU + "AudioReader.max_read"), [], {}, me)
+            eng.prove("C10:AudioReader:max_read-property", (r is mr) if has else (r is None), props=P10)
             return None
         nm = ["data", "rewind", "sr"][eng.choose(3, None, "attribute")]
         try:
